@@ -698,6 +698,70 @@ type SingleSender struct {
 	OnlyIn []string `json:"only_in"` // short function keys
 }
 
+// singleWriterRule: a struct field receives a non-nil value only in the listed functions (so that a contract
+// on those functions speaks for every assignment of the field). Same configuration shape as SingleSender.
+func (L *Loader) singleWriterRule(rules []SingleSender) (obls []*Obligation) {
+	var fns []*ssa.Function
+	for fn := range L.allFuncs {
+		fns = append(fns, fn)
+	}
+	sort.Slice(fns, func(i, j int) bool { return L.funcKey(fns[i]) < L.funcKey(fns[j]) })
+	for _, r := range rules {
+		allowed := map[string]bool{}
+		for _, a := range r.OnlyIn {
+			allowed[a] = true
+		}
+		n, bad := 0, 0
+		for _, fn := range fns {
+			if p := pkgOf(fn); p == nil || !strings.HasPrefix(p.Pkg.Path(), modulePath) || strings.HasSuffix(L.fset.Position(fn.Pos()).Filename, "_test.go") {
+				continue
+			}
+			for _, b := range fn.Blocks {
+				for _, in := range b.Instrs {
+					st, ok := in.(*ssa.Store)
+					if !ok {
+						continue
+					}
+					fa, ok := st.Addr.(*ssa.FieldAddr)
+					if !ok {
+						continue
+					}
+					pt, ok := fa.X.Type().Underlying().(*types.Pointer)
+					if !ok {
+						continue
+					}
+					sty, ok := pt.Elem().Underlying().(*types.Struct)
+					if !ok || strings.TrimPrefix(pt.Elem().String(), modulePath+"/")+"."+sty.Field(fa.Field).Name() != r.Field {
+						continue
+					}
+					if c, isConst := st.Val.(*ssa.Const); isConst && c.IsNil() {
+						continue // clearing the field
+					}
+					if _, isAlloc := fa.X.(*ssa.Alloc); isAlloc {
+						continue // initialising a freshly made object (composite literal)
+					}
+					n++
+					if !allowed[L.funcKeyShort(fn)] {
+						bad++
+						pos := L.fset.Position(in.Pos())
+						obls = append(obls, &Obligation{ID: fmt.Sprintf("%s/single-writer/%s#%d", L.funcKeyShort(fn), r.Field, bad), Kind: "confine", Func: L.funcKeyShort(fn),
+							Pos:  fmt.Sprintf("%s:%d", strings.TrimPrefix(pos.Filename, L.repoDir+"/"), pos.Line),
+							Desc: "assignment of " + r.Field + " outside " + strings.Join(r.OnlyIn, ", ") + ": the contract that releases the replaced value does not see it", Prefix: 1, Goal: "false", Script: []string{"(set-logic ALL)"}})
+					}
+				}
+			}
+		}
+		if bad == 0 {
+			goal, desc := "true", fmt.Sprintf("all %d assignments of a value to %s are in %s", n, r.Field, strings.Join(r.OnlyIn, ", "))
+			if n == 0 {
+				goal, desc = "false", "no assignment of "+r.Field+" found: the rule names a field that does not exist"
+			}
+			obls = append(obls, &Obligation{ID: "single-writer/" + r.Field + "#1", Kind: "confine", Func: r.OnlyIn[0], Pos: "props", Desc: desc, Prefix: 1, Goal: goal, Script: []string{"(set-logic ALL)"}})
+		}
+	}
+	return
+}
+
 func (L *Loader) singleSenderRule(rules []SingleSender) (obls []*Obligation) {
 	var fns []*ssa.Function
 	for fn := range L.allFuncs {
